@@ -310,6 +310,13 @@ func downgrade(path string, ver uint64, perturb bool) {
 					must(b.Delete([]byte{p}))
 				}
 			} else if perturb { // "GC mark double counting": the garbage counter of version 10 may be too high
+				// a version 10 database that came from version 9 holds all seven counters (forced resync writes
+				// them all); only then does a non-forced resync leave them alone
+				for _, p := range lay.CounterPrefixes {
+					if len(b.Get([]byte{p})) != 8 {
+						must(b.Put([]byte{p}, le64(0)))
+					}
+				}
 				gk := []byte{lay.CounterPrefixes[5]}
 				var cur uint64
 				if v := b.Get(gk); len(v) == 8 {
